@@ -129,14 +129,15 @@ class _Configuration:
         Returns:
             True if route was announced to at least one peer
         """
-        result = False
+        # resolve "next-hop self" for every target first: it can fail (family of the route vs
+        # family of the session) and a command answered "error" must not have changed any RIB
+        resolved = []
         for neighbor_name in self.neighbors:
             if neighbor_name in peers:
                 neighbor = self.neighbors[neighbor_name]
                 if route.nlri.family().afi_safi() in neighbor.families():
                     # resolve_self creates a copy with resolved nexthop
-                    neighbor.rib.outgoing.add_to_rib(neighbor.resolve_self(route))
-                    result = True
+                    resolved.append((neighbor, neighbor.resolve_self(route)))
                 else:
                     log.error(
                         lazymsg(
@@ -146,7 +147,9 @@ class _Configuration:
                         ),
                         'configuration',
                     )
-        return result
+        for neighbor, resolved_route in resolved:
+            neighbor.rib.outgoing.add_to_rib(resolved_route)
+        return bool(resolved)
 
     def withdraw_route(self, peers: list[str], route: 'Route') -> bool:
         """Withdraw route from matching peers.
@@ -158,14 +161,14 @@ class _Configuration:
         Returns:
             True if route was withdrawn from at least one peer
         """
-        result = False
+        # as in announce_route: nothing is withdrawn anywhere if "next-hop self" cannot be resolved
+        resolved = []
         for neighbor_name in self.neighbors:
             if neighbor_name in peers:
                 neighbor = self.neighbors[neighbor_name]
                 if route.nlri.family().afi_safi() in neighbor.families():
                     # resolve_self creates a copy with resolved nexthop
-                    neighbor.rib.outgoing.del_from_rib(neighbor.resolve_self(route))
-                    result = True
+                    resolved.append((neighbor, neighbor.resolve_self(route)))
                 else:
                     log.error(
                         lazymsg(
@@ -175,7 +178,9 @@ class _Configuration:
                         ),
                         'configuration',
                     )
-        return result
+        for neighbor, resolved_route in resolved:
+            neighbor.rib.outgoing.del_from_rib(resolved_route)
+        return bool(resolved)
 
     def announce_route_indexed(self, peers: list[str], route: 'Route') -> tuple[bytes, bool]:
         """Announce route and store in global index for API access.
